@@ -1,6 +1,9 @@
 """C08 -- Every request gets a response; uncaught failures become the handler's 500.
 
 Decided:
+  R08.a  (also) the last-resort renderer default_render_error is self-contained: outside a handler of its own it calls
+         nothing reached through the application / the keyword arguments and runs no error renderer again; what runs
+         inside dispatch's generic handler looks no module attribute up under a computed name without default or handler;
   R08.a  user code is always under a handler: on every call-graph path from Application.__call__ to the
          calls that run user code (route.execute -> inject(self._execute), execute_error ->
          inject(self.render_error)) some frame encloses the call in a handler catching Exception;
@@ -10,14 +13,18 @@ Decided:
          back to default_render_error with the *same* parameters (same error);
   R08.b  non-Response results: the isinstance(ret, BaseResponse) test and its ``raise TypeError`` sit in
          the same protected region as route.execute;
-  R08.c  re-raise only on request: in every uncaught_to_response of the ErrorHandler family a bare
-         ``raise`` is dominated by self.reraise_uncaught (REPLErrorHandler, whose purpose is re-raising into
-         the werkzeug debugger, is the one table entry); reraise_uncaught defaults to falsy;
+  R08.c  re-raise only on request: in every uncaught_to_response of the ErrorHandler family whatever lets an
+         exception out (a ``raise``, a call of a function that raises) is dominated by self.reraise_uncaught
+         (REPLErrorHandler, whose purpose is re-raising into the werkzeug debugger, is the one table entry), and what
+         it lets out is the *original* exception: a bare ``raise`` or ``raise <the exception being handled>``
+         (``sys.exc_info()[1]``, ``_error``, through ``.with_traceback``), also inside a helper the parts are handed
+         to -- never an object newly built from it; reraise_uncaught defaults to falsy;
   R08.d  a failed request leaves no trace: no function reachable from Application.__call__ in the core
          modules stores into a shared object (shared with C12).
   R08.e  the serialisers the fallback renderer shares with the primary renderer cannot raise on error data: no error
          text used as a format template; html_escape only on text or as an attempt; every JSON encoding goes through
-         a total encoder (its hook for unknown values returns text instead of raising TypeError);
+         a total encoder (its hook for unknown values returns text instead of raising TypeError); an optional field of
+         the error (filled from an optional constructor keyword, None otherwise) is dereferenced only under a test of it;
   R08.f  URL converters run under a handler (conversion failure = no match);
   R08.g  no strict bytes<->text conversion (``.decode(codec)`` without an errors argument) on the part of the
          request path that no handler covers: the call-graph closure from Application.__call__ through call
